@@ -106,7 +106,7 @@ public:
             bool la = a.find("/repo/") != std::string::npos, lb = b.find("/repo/") != std::string::npos;
             bool va = !la && viaApi(a), vb = !lb && viaApi(b);
             if(!(la || va) || !(lb || vb)) continue;
-            auto topLib = [](const std::string &stk) { std::istringstream is(stk); std::string ln; while(std::getline(is, ln)) { size_t q = ln.find("/repo/"); size_t h = ln.find("#"); if(q != std::string::npos && h != std::string::npos) { std::string f = ln.substr(h); size_t sp = f.find(' '); f = f.substr(sp + 1); size_t e2 = f.find(" /repo/"); if(e2 != std::string::npos) f = f.substr(0, e2); size_t par = f.find('('); if(par != std::string::npos) f = f.substr(0, par); return f; } } return std::string("?"); };
+            auto topLib = [](const std::string &stk) { std::istringstream is(stk); std::string ln; while(std::getline(is, ln)) { size_t q = ln.find("/repo/"); size_t h = ln.find("#"); if(q != std::string::npos && h != std::string::npos) { std::string f = ln.substr(h); size_t sp = f.find(' '); f = f.substr(sp + 1); size_t e2 = f.find(" /"); if(e2 != std::string::npos) f = f.substr(0, e2); size_t par = f.find('('); if(par != std::string::npos) f = f.substr(0, par); return f; } } return std::string("?"); };
             std::string fa = topLib(a), fb = topLib(b); if(fb < fa) std::swap(fa, fb);
             if(va) fa = "libstdc++ under an API call"; if(vb) fb = "libstdc++ under an API call"; if(fb < fa) std::swap(fa, fb);
             size_t hb = rep.find("Location is heap block of size "); if(hb != std::string::npos && (va || vb)) { size_t e4 = rep.find(' ', hb + 31); fa = "heap block of size " + rep.substr(hb + 31, e4 - hb - 31) + " shared through " + fa; }
@@ -124,6 +124,7 @@ public:
             std::map<std::string, std::string>::iterator pick = found.end();
             for(std::map<std::string, std::string>::iterator it = found.begin(); it != found.end(); ++it) { Violation v; v.set = true; v.tag = "data-race"; v.sig = it->first; if(!matchKnown(known, v)) { pick = it; break; } }
             if(pick == found.end()) pick = found.begin();
+            if(const char *only = getenv("VERIF_ONLY_CLASS")) for(std::map<std::string, std::string>::iterator it = found.begin(); it != found.end(); ++it) if(("data-race|" + it->first).find(only) != std::string::npos) { pick = it; break; }   // re-recording one class on an old tree
             std::string others; for(std::map<std::string, std::string>::iterator it = found.begin(); it != found.end(); ++it) if(it != pick) others += " [" + it->first + "]";
             run.fail("data-race", pick->first, pick->second + (others.empty() ? "" : "; also in this run:" + others));
         }
